@@ -536,6 +536,21 @@ var concModel = (&porcupine.NondeterministicModel{
 	},
 }).ToModel()
 
+var concModelStrict = porcupine.Model{
+	Init: func() interface{} { return uint32(0) },
+	Step: func(st, in, out interface{}) (bool, interface{}) {
+		h := st.(uint32)
+		x := in.(concIn).x
+		if out.(bool) {
+			return x > h, x
+		}
+		return x <= h, h
+	},
+	DescribeOperation: func(in, out interface{}) string {
+		return fmt.Sprintf("deliver(%d)->%v", in.(concIn).x, out.(bool))
+	},
+}
+
 func concurrentRun(res *core.Result, r *rand.Rand, d deliverer, universe []uint32, goroutines, perG int, keyPrefix string) {
 	d.reset()
 	// Multiset with duplicates.
@@ -583,7 +598,11 @@ func concurrentRun(res *core.Result, r *rand.Rand, d deliverer, universe []uint3
 			return
 		}
 	}
-	result, _ := porcupine.CheckOperationsVerbose(concModel, all, 60*time.Second)
+	model := concModel
+	if d.strict() {
+		model = concModelStrict
+	}
+	result, _ := porcupine.CheckOperationsVerbose(model, all, 60*time.Second)
 	switch result {
 	case porcupine.Illegal:
 		descr := make([]string, 0, len(all))
@@ -613,6 +632,7 @@ func parallel(n int, fn func(w int)) {
 var alphaSmall = []uint32{1, 2, 3, 4, 5, 6}
 var alphaWin = []uint32{1, 2, 3, 66, 67, 68, 130, 131}
 var alphaBoth = []uint32{1, 2, 3, 4, 5, 6, 66, 67, 68, 130, 131}
+var signedUniverse = []uint32{1, 2, 3, 4, 5, 6, 7, 8, 9, 10, 11, 12}
 var concUniverse = []uint32{1, 2, 3, 4, 5, 6, 7, 8, 70, 71, 72, 73, 74, 75, 140, 141, 142, 143, 144}
 
 func run(c *core.Ctx) {
@@ -628,10 +648,15 @@ func run(c *core.Ctx) {
 				newFrameDeliverer(r, frame.RouterCtrl, concUniverse, "e2e-priority"),
 				newLinkDeliverer(r, concUniverse),
 				&seqDeliverer{},
+				newSignedDeliverer(r, frame.RouterPing, 12, "signed-ping"),
 			}
 			for i := 0; i < n/4; i++ {
 				for _, d := range ds {
-					concurrentRun(res, r, d, concUniverse, 2+r.IntN(7), 5, "race:")
+					u := concUniverse
+					if d.strict() {
+						u = signedUniverse
+					}
+					concurrentRun(res, r, d, u, 2+r.IntN(7), 5, "race:")
 				}
 			}
 		})
@@ -748,9 +773,16 @@ func run(c *core.Ctx) {
 			newFrameDeliverer(r, frame.RouterCtrl, concUniverse, "e2e-priority"),
 			newLinkDeliverer(r, concUniverse),
 			&seqDeliverer{},
+			newSignedDeliverer(r, frame.RouterPing, 12, "signed-ping"),
+			newSignedDeliverer(r, frame.RouterHopPing, 12, "signed-hop"),
 		}
 		for i := 0; i < nConc/4; i++ {
-			concurrentRun(res, r, ds[i%len(ds)], concUniverse, 2+r.IntN(7), 5, "")
+			d := ds[i%len(ds)]
+			u := concUniverse
+			if d.strict() {
+				u = signedUniverse
+			}
+			concurrentRun(res, r, d, u, 2+r.IntN(7), 5, "")
 		}
 	})
 
